@@ -86,3 +86,5 @@ pub fn record_component(record_component: &RecordComponent) -> RecordComponentVi
 		attributes: &record_component.attributes,
 	}
 }
+
+pub mod masked;
